@@ -392,3 +392,46 @@ Fixpoint frun (f : pfilter) (p : pbl) (evs : list (fevent * N)) : pfilter * pbl 
     let '(f1, p1, o) := fstep f p e now in
     let '(f2, p2, os) := frun f1 p1 rest in (f2, p2, o :: os)
   end.
+
+(* ---------------------------------------------------------------------------------------------- *)
+(* RecvHandler::handle_inbound with the datagram's source socket address, the map of expected
+   responses and the packet kind made explicit (the part of the receive task in front of
+   [handle_inbound] above):
+
+     if let SocketAddr::V6(ref mut a) = src_address {
+         if a.flowinfo() != 0 || a.scope_id() != 0 { a.set_flowinfo(0); a.set_scope_id(0); } }
+     let permitted = self.expected_responses.read().get(&src_address).is_some();
+     ... initial_pass(&src_address) ... Packet::decode ... packet.src_id() ... final_pass ...
+     InboundPacket { src_address, .. } / UnrecognizedFrame { src_address, .. }
+
+   A socket address is (ip, port, flowinfo, scope id); IPv4 addresses have flowinfo = scope id = 0.
+   IP addresses are numbers; an IPv4-mapped IPv6 address (::ffff:a.b.c.d) is a different number than
+   a.b.c.d: nothing here identifies the two.  The lookup in expected_responses is HashMap::get on the
+   whole normalised socket address. *)
+
+Record saddr := SA { sa_ip : N; sa_port : N; sa_flow : N; sa_scope : N }.
+
+Definition saddr_eqb (a b : saddr) : bool :=
+  (sa_ip a =? sa_ip b) && (sa_port a =? sa_port b) && (sa_flow a =? sa_flow b) && (sa_scope a =? sa_scope b).
+
+Definition normalise_src (a : saddr) : saddr :=
+  if negb (sa_flow a =? 0) || negb (sa_scope a =? 0)
+  then {| sa_ip := sa_ip a; sa_port := sa_port a; sa_flow := 0; sa_scope := 0 |}
+  else a.
+
+(* PacketKind, as far as the receive task looks at it *)
+Inductive pkind := PMessage (src_id : N) | PWhoAreYou | PHandshake (src_id : N).
+
+(* Packet::src_id *)
+Definition packet_src_id (k : pkind) : option N :=
+  match k with PMessage i => Some i | PWhoAreYou => None | PHandshake i => Some i end.
+
+Definition is_exempt (expected : list saddr) (a : saddr) : bool := existsb (saddr_eqb a) expected.
+
+(* packet = None: Packet::decode fails.  Result: filter, lists, fate and the source address that is
+   handed on to the handler (meaningful unless the datagram is dropped). *)
+Definition recv_inbound (f : pfilter) (p : pbl) (expected : list saddr) (src : saddr) (packet : option pkind) (now : N)
+  : pfilter * pbl * fate * saddr :=
+  let a := normalise_src src in
+  let '(f', p', x) := handle_inbound f p (is_exempt expected a) (sa_ip a) (option_map packet_src_id packet) now in
+  (f', p', x, a).
